@@ -22,6 +22,10 @@ Dims == {"2", "3"}
 VecT == {<<"Vec", d, b>> : d \in Dims, b \in Bases}
 PtT == {<<"Pt", d, b>> : d \in Dims, b \in Bases}
 ColT == {<<"Col", r, s>> : r \in {"u8", "f32"}, s \in {"Rgb", "Hsl"}}
+\* conversions also know linear (not gamma-encoded) float colours
+ColF == {c \in ColT : c[2] = "f32"} \cup {<<"Col", "f32", "LinRgb">>}
+ColAll == ColT \cup ColF
+ConvOps == {"ToHsl", "ToRgb", "ToColor3", "ToLinear", "ToSrgb", "ToRgba"}
 Mat4T == {<<"Mat4", s, d>> : s \in Bases, d \in Bases}
 Mat3T == {<<"Mat3", s, d>> : s \in {"Model", "World"}, d \in {"Model", "World"}}
 MatPT == {<<"MatP", s>> : s \in Bases}
@@ -43,8 +47,8 @@ Programs ==
   \cup {<<op, <<a, b>>>> : op \in {"Add", "Sub", "Lerp"}, a \in PtT, b \in PtT}
   \cup {<<"Lerp", <<a, b>>>> : a \in VecT, b \in PtT}
   \* colours
-  \cup {<<op, <<a, b>>>> : op \in {"AffAdd", "AffSub", "Lerp"}, a \in {c \in ColT : c[2] = "f32"}, b \in {c \in ColT : c[2] = "f32"}}
-  \cup {<<op, <<a>>>> : op \in {"ToHsl", "ToRgb"}, a \in ColT}
+  \cup {<<op, <<a, b>>>> : op \in {"AffAdd", "AffSub", "Lerp"}, a \in ColF, b \in ColF}
+  \cup {<<op, <<a>>>> : op \in ConvOps, a \in ColAll}
   \* transforms
   \cup {<<"Apply", <<m, v>>>> : m \in Mat4T, v \in VecT}
   \cup {<<"ApplyPt", <<m, p>>>> : m \in Mat4T, p \in PtT}
@@ -83,8 +87,13 @@ WellTyped(pr) ==
     [] op = "Add" /\ Kind(a) = "Pt" /\ Kind(b) = "Pt" -> FALSE           \* two points cannot be added
     [] op = "Sub" /\ Kind(a) = "Pt" /\ Kind(b) = "Pt" -> a = b           \* their difference is a vector
     [] op \in {"AffAdd", "AffSub"} -> a = b
+    \* each conversion exists only from the space (and representation) it converts from
     [] op = "ToHsl" -> a[3] = "Rgb"
     [] op = "ToRgb" -> a[3] = "Hsl"
+    [] op = "ToRgba" -> a[3] = "Rgb"
+    [] op = "ToColor3" -> a = <<"Col", "f32", "Rgb">>          \* quantising is defined on gamma-encoded RGB only
+    [] op = "ToLinear" -> a = <<"Col", "f32", "Rgb">>
+    [] op = "ToSrgb" -> a = <<"Col", "f32", "LinRgb">>
     [] op = "Apply" /\ Kind(a) = "Mat4" -> Kind(b) = "Vec" /\ b[2] = "3" /\ b[3] = a[2]
     [] op = "Apply" /\ Kind(a) = "Mat3" -> Kind(b) = "Vec" /\ b[2] = "2" /\ b[3] = a[2]
     [] op = "ApplyPt" /\ Kind(a) = "Mat4" -> Kind(b) = "Pt" /\ b[2] = "3" /\ b[3] = a[2]
@@ -122,7 +131,7 @@ Class(pr) ==
   ELSE IF op \in {"Compose", "Then"} THEN "compose-mismatch"
   ELSE IF op \in {"Inverse", "Transpose", "Determinant"} THEN "projective-as-affine"
   ELSE IF op \in {"RotateX", "Sin", "PolarAz"} \/ a \in Scal THEN "number-as-angle"
-  ELSE IF op \in {"ToHsl", "ToRgb"} THEN "wrong-colour-space"
+  ELSE IF op \in ConvOps THEN "wrong-colour-space"
   ELSE "shader-output"
 
 \* ---------------------------------------------------------------- relation
